@@ -74,6 +74,8 @@ package pubsub
 //@   noframe
 //@   ensures memo: old(msg.ID) != "" ==> result == old(msg.ID) && calls((*msgIDGenerator).RawID) == old(calls((*msgIDGenerator).RawID))
 //@   ensures stored: result == msg.ID
+//@   ensures computed-once-from-the-protobuf: old(msg.ID) == "" ==> calls((*msgIDGenerator).RawID) == old(calls((*msgIDGenerator).RawID)) + 1 &&
+//@        lastarg((*msgIDGenerator).RawID, 1) == msg.Message && result == lastret((*msgIDGenerator).RawID)
 
 //@ func (*PubSub).checkSigningPolicy
 //@   property C03 C12
